@@ -48,9 +48,15 @@ func NewLWWRegister() *LWWRegister {
 // Set updates the register value with the given timestamp and node ID.
 // Returns a new LWWRegister with the updated state.
 func (r *LWWRegister) Set(value any, timestamp time.Time, nodeID string) *LWWRegister {
+	ts := timestamp.UnixNano()
+	if ts < r.timestamp || (ts == r.timestamp && nodeID < r.nodeID) {
+		// this write loses against the current value on every other replica
+		// (see Merge); it must lose here too or the replicas diverge for good.
+		return r.Clone().(*LWWRegister)
+	}
 	return &LWWRegister{
 		value:     value,
-		timestamp: timestamp.UnixNano(),
+		timestamp: ts,
 		nodeID:    nodeID,
 		dirty:     true,
 	}
